@@ -39,6 +39,10 @@ def _interp(fi, tree, node, fnarg, kw):
         try:
             if kind == "call":
                 acc.append(_fn(step[1])(tree, step[2]))
+            elif kind == "mutcall":  # hands the child a list and changes that list in place afterwards
+                tag = [node]
+                acc.append(_fn(step[1])(tree, step[2], tag=tag))
+                tag.append(99)
             elif kind == "kwcall":
                 acc.append(_fn(step[1])(node=step[2], tree=tree))
             elif kind == "partial":
